@@ -1,6 +1,6 @@
 (* C06/Props.v — property-level theorems only. Tags [FULL]/[PARTIAL]/[REFUTED] are read by bin/check. *)
 From Coq Require Import List NArith ZArith.
-From BLB Require Import Lib.CRC Lib.CRCProofs C06.Model C06.Spec C06.Proofs C06.ProofsRefuted C06.ProofsRecover C06.ProofsCrash C06.ProofsCache C06.ProofsTrim C06.ProofsBurst C06.ProofsRefine C06.ProofsCacheFs C06.ProofsEntry C06.CrashCache C06.ProofsPower.
+From BLB Require Import Lib.CRC Lib.CRCProofs C06.Model C06.Spec C06.Proofs C06.ProofsRefuted C06.ProofsRecover C06.ProofsCrash C06.ProofsCache C06.ProofsTrim C06.ProofsBurst C06.ProofsRefine C06.ProofsCacheFs C06.ProofsEntry C06.CrashCache C06.ProofsPower C06.ProofsMem.
 Import ListNotations.
 Open Scope N_scope.
 
@@ -165,7 +165,7 @@ Print Assumptions wal_burst_detected.
    prefix of the last unsynced write -- depends on: in every reachable state an acknowledged non-empty Append
    performs exactly, in this order, an optional create of a new file followed by a directory sync, one write per
    record into one file, and an fsync of that file, so no acknowledged byte is left unsynced. Trim and the
-   deletions of Truncate are unlinks each followed by a directory sync, Truncate ends with at most one ftruncate,
+   deletions of Truncate are unlinks each followed by a directory sync, Truncate ends with at most one ftruncate immediately followed by the fsync of that file,
    and reopening a live log mutates nothing. The mutation traces of the real code are compared with these on
    every run, and the harness judges the states in which unsynced bytes vanish *)
 Theorem wal_sync_discipline :
@@ -178,7 +178,7 @@ Theorem wal_sync_discipline :
       rc = 0%Z -> recs <> [] ->
       exists s pre, ms = pre ++ map (wr s) recs ++ [MSync s] /\ (pre = [] \/ pre = [MCreate s; MDirSync])
     | OTrim _ => dir_ops_synced ms
-    | OTruncate _ => exists U T, ms = U ++ T /\ dir_ops_synced U /\ (T = [] \/ exists s o, T = [MTruncate s o])
+    | OTruncate _ => exists U T, ms = U ++ T /\ dir_ops_synced U /\ (T = [] \/ exists s o, T = [MTruncate s o; MSync s])
     | OReopen => ms = []
     end.
 Proof. exact sync_discipline. Qed.
@@ -196,29 +196,51 @@ Theorem crash_prefix_in_crash_cache :
 Proof. exact prefix_in_cache. Qed.
 Print Assumptions crash_prefix_in_crash_cache.
 
-(* [FULL] power-loss safety of the repaired code, with exactly the un-synced ftruncate carved out: for every roll
-   threshold above 0, every scenario of Appends, Truncates, Trims and reopens in which no operation issues an
-   ftruncate -- Truncates that remove whole files or nothing are included -- every crash point and EVERY crash_cache
-   state at that point -- un-synced bytes absent or present up to any prefix, a created file absent until the
-   directory sync, an unlinked file still present until the directory sync -- reopens to a gap-free run containing
-   every acknowledged and not removed record with its bytes, followed by at most a prefix of the unacknowledged
-   batch, with FirstID, LastID and Append acceptance as in wal_crash_atomic. This is the theorem that needs the
-   fsync at the end of every Append and the directory sync after every create and unlink *)
-Theorem wal_powerloss :
-  forall (maxsz : N) (ops : list wal_op) (i j : nat),
-    0 < maxsz -> Forall valid_op ops ->
-    no_ftruncate repaired maxsz (mkLive None [] []) ops ->
-    powerloss_at repaired maxsz ops i j.
-Proof. exact powerloss_no_ftruncate. Qed.
-Print Assumptions wal_powerloss.
 
-(* [REFUTED] power-loss safety without the carve-out is false for the code as it stands, because logFile.Truncate
-   does not fsync after its ftruncate. Witness, roll threshold 40: Append of records 1,2,3 in one batch, Truncate
-   to 2 which cuts inside the file, Append of a new record 3 which rolls to a new file and fsyncs only that one,
-   all acknowledged. After a power loss the old file may still end with the removed record 3 and the reopened log
-   iterates ids 1,2,3,3 which is not gap-free. Outside the crash quantifier of C06 -- the un-synced operation is
-   a truncation, not a write -- hence an observation, not a C06 finding *)
+(* [REFUTED] regression witness for finding F25, about the code BEFORE 09d27e0 in which logFile.Truncate did not
+   fsync after its ftruncate, model variant repaired_nots: power-loss safety was false. Roll threshold 40: Append of
+   records 1,2,3 in one batch, Truncate to 2 which cuts inside the file, Append of a new record 3 which rolls to a
+   new file and fsyncs only that one, all acknowledged. After a power loss the old file may still end with the
+   removed record 3 and the reopened log iterates ids 1,2,3,3 which is not gap-free, on which raft stops with Fatalf
+   at every start. The monitor reports the same states on the real code if the fsync is ever removed *)
 Theorem wal_powerloss_refuted_unsynced_ftruncate :
-  exists maxsz ops i j, 0 < maxsz /\ Forall valid_op ops /\ ~ powerloss_at repaired maxsz ops i j.
+  exists maxsz ops i j, 0 < maxsz /\ Forall valid_op ops /\ ~ powerloss_at repaired_nots maxsz ops i j.
 Proof. exact pl_refuted_packed. Qed.
 Print Assumptions wal_powerloss_refuted_unsynced_ftruncate.
+
+(* [FULL] power-loss safety of the code as it stands, unconditional: for every roll threshold above 0, every scenario
+   of Appends, Truncates, Trims and reopens, every crash point and EVERY crash_cache state at that point -- un-synced
+   bytes absent or present up to any prefix, an un-synced ftruncate undone, a created file absent until the directory
+   sync, an unlinked file still present until the directory sync -- reopening yields a gap-free run containing every
+   acknowledged and not removed record with its bytes, followed by at most a prefix of the unacknowledged batch, with
+   the FirstID, LastID and Append clauses of wal_crash_atomic. This theorem needs the fsync at the end of every
+   Append, the directory sync after every create and unlink, and the fsync after the ftruncate of Truncate, 09d27e0 *)
+Theorem wal_powerloss :
+  forall (maxsz : N) (ops : list wal_op) (i j : nat),
+    0 < maxsz -> Forall valid_op ops -> powerloss_at repaired maxsz ops i j.
+Proof. exact powerloss_all. Qed.
+Print Assumptions wal_powerloss.
+
+(* [FULL] memLog, the reference implementation, refines the abstract log with the documented Trim relation under
+   the batch discipline of the harness -- a batch is acceptable as a whole or its FIRST id is already wrong: same
+   result code, same new state for Append and Truncate, Trim discards exactly the records up to the hint, and the
+   log stays gap-free *)
+Theorem memlog_refines_spec :
+  forall m op,
+    gap_free m = true -> Forall id_room m -> valid_op op ->
+    (forall recs, op = OAppend recs -> spec_accepts m recs = true \/ first_id_wrong m recs) ->
+    fst (mem_step m op) = spec_rc m op /\ spec_step_doc m op (snd (mem_step m op)) /\
+    gap_free (snd (mem_step m op)) = true.
+Proof. exact memlog_refines. Qed.
+Print Assumptions memlog_refines_spec.
+
+(* [REFUTED] without that discipline memLog does not refine the abstract log, witness: on the log 1 the batch 2,9 is
+   rejected by the abstract log and by fsLog without any effect, while memLog appends record 2 before it reports the
+   error. A difference between the two implementations of wal.Log, harmless for raft which stops on any Append
+   error *)
+Theorem memlog_partial_batch_refuted :
+  mem_step [mr1] (OAppend [mr2; mr9]) = (1%Z, [mr1; mr2]) /\
+  spec_accepts [mr1] [mr2; mr9] = false /\
+  ~ spec_step_doc [mr1] (OAppend [mr2; mr9]) (snd (mem_step [mr1] (OAppend [mr2; mr9]))).
+Proof. exact memlog_partial_batch. Qed.
+Print Assumptions memlog_partial_batch_refuted.
